@@ -688,6 +688,9 @@ def check_underflow_asserts(ctx, res, config="all"):
 # must-use of the carry returned by __add2
 
 
+CARRY_FNS = ("biguint::addition::__add2", "biguint::addition::adc", "biguint::subtraction::sbb", "biguint::subtraction::__sub2rev")
+
+
 def check_add2_carry_used(ctx, res, config="all"):
     facts = ctx.facts(config)
     n = 0
@@ -695,10 +698,14 @@ def check_add2_carry_used(ctx, res, config="all"):
         for i, t in b.calls():
             if i not in b.live_blocks():
                 continue
-            if callee(t) != "biguint::addition::__add2":
+            ce = callee(t)
+            if ce not in CARRY_FNS:
                 continue
             n += 1
-            key = "%s@call#%d" % (b.path, sum(1 for j, tt in b.calls() if j < i and callee(tt) == "biguint::addition::__add2"))
+            short = ce.split("::")[-1]
+            key = "%s@call#%d" % (b.path, sum(1 for j, tt in b.calls() if j < i and callee(tt) == ce))
+            if ce != "biguint::addition::__add2":
+                key = "%s@%s#%d" % (b.path, short, sum(1 for j, tt in b.calls() if j < i and callee(tt) == ce))
             dest = t["dest"]
             used = False
             if dest["proj"]:
@@ -728,11 +735,11 @@ def check_add2_carry_used(ctx, res, config="all"):
                 # contract of add2: "the caller made room for the carry" - checked by a debug assertion only
                 res.ok("R3-carry-used", key, {"exempt": "add2: caller guarantees room (documented contract)"}, nontrivial=False)
             else:
-                res.fail(Finding("R3-carry-dropped", key, "the carry returned by __add2 is discarded; a carry out of the top digit would be lost silently", b, t["span"]["line"]))
-    res.count("__add2 call sites", n)
-    if n < 5:
-        res.fail(Finding("R3-anchor-lost", "__add2-calls", "only %d calls of __add2 found (floor 5)" % n, file="src/biguint/addition.rs", line=0))
-    res.clause("R3: no call site discards the carry returned by __add2 (except add2, whose contract is 'caller made room')")
+                res.fail(Finding("R3-carry-dropped", key, "the carry/borrow returned by %s is discarded; a carry out of the top digit would be lost silently" % short, b, t["span"]["line"]))
+    res.count("carry-returning call sites (__add2, adc, sbb, __sub2rev)", n)
+    if n < 12:
+        res.fail(Finding("R3-anchor-lost", "__add2-calls", "only %d calls of the carry-returning routines found (floor 12)" % n, file="src/biguint/addition.rs", line=0))
+    res.clause("R3: no call site discards the carry/borrow returned by __add2, adc, sbb or __sub2rev (except add2, whose contract is 'caller made room')")
 
 
 # ------------------------------------------------------------------------------------------
